@@ -457,6 +457,25 @@ func (c *FnCtx) binop(st *State, op token.Token, a, b *Term, ta, tb types.Type, 
 	case token.REM:
 		c.oblige(st, "safe:div", site, "", "division by zero", mkNot(mkEq(b, intLit(0))))
 		return mkSub(a, mk("*", SInt, b, c.goDiv(a, b)))
+	case token.SHR, token.SHL:
+		// shifts by a constant are division / multiplication by a power of two (mathematical integers, non-negative operand
+		// for >>: Go's >> on negative signed values rounds towards minus infinity, like SMT div)
+		if len(b.Args) == 0 {
+			if k, err := strconv.Atoi(b.Op); err == nil && k >= 0 && k < 62 {
+				p := intLit(int64(1) << uint(k))
+				if op == token.SHR {
+					return mk("div", SInt, a, p)
+				}
+				return mk("*", SInt, a, p)
+			}
+		}
+		fallthrough
+	case token.AND, token.OR, token.XOR, token.AND_NOT:
+		// bit operations are not interpreted: an uninterpreted function of the operands (sound, imprecise)
+		name := "bitop_" + map[token.Token]string{token.SHR: "shr", token.SHL: "shl", token.AND: "and", token.OR: "or", token.XOR: "xor", token.AND_NOT: "andnot"}[op]
+		c.smt.fun(name, []string{SInt, SInt}, SInt)
+		c.assumptionsUsed["bit operations are uninterpreted functions of their operands"] = true
+		return mk(name, SInt, a, b)
 	}
 	c.unsupportedf(site, "binary operator %s", op)
 	return nil
